@@ -1,4 +1,4 @@
-SPECIFICATION Spec
+SPECIFICATION EmitSpec
 CONSTANTS
   Dev <- NoDev
 INVARIANT Emit
